@@ -351,7 +351,7 @@ type bShape struct {
 
 // memory guard: the BFS frontiers hold database images; when the live heap passes memLimit the exploration stops
 // expanding (reported through r.Incomplete -> exhaustive:false) instead of being killed by the OS.
-const memLimit = 3 << 30
+const memLimit = 2 << 30
 
 var (
 	memAdds atomic.Int64
